@@ -8,6 +8,8 @@ import forsys.virtual_edges as ve
 import forsys.borders as borders
 from forsys.exceptions import BigEdgesBadlyCreated
 import warnings
+import os
+_FORSYS_VERIF = os.environ.get("FORSYS_VERIF") == "1"  # verification hook guard (off by default)
 @dataclass
 class ForceMatrix:
     """
@@ -233,6 +235,8 @@ class ForceMatrix:
         """
         np.seterr(all='raise')
         tote = len(self.big_edges_to_use)
+        if _FORSYS_VERIF:
+            self._verif_fallback = False
 
         b, average_velocity = self.set_velocity_matrix(timeseries, **kwargs)
 
@@ -316,9 +320,18 @@ class ForceMatrix:
         except (ValueError, np.linalg.LinAlgError, TypeError) as e:
             warnings.warn(f"Numerically solving due to the following error: {e}")
             xres, _ = scop.nnls(mprime, b, maxiter=kwargs.get("nnls_max_iter"))
+            if _FORSYS_VERIF:
+                self._verif_fallback = True
 
         if kwargs.get("verbose", False):
             print("Residuals ||AX - B||: ", np.linalg.norm(mprime @ xres - b))
+
+        if _FORSYS_VERIF:
+            # record what was actually solved: augmented system, rhs after rounding, raw solution (with multiplier), path
+            self._verif_record = {"A": np.array(mprime, dtype=float), "b": np.array(b, dtype=float),
+                                  "x": np.array(xres, dtype=float),
+                                  "path": "nnls-fallback" if self._verif_fallback else
+                                  (solver_method if solver_method in ("lsq", "lsq_linear", "fix_stress") else "inv")}
 
         if removed_index is not None:
             xres = np.insert(xres, removed_index, 1.)
